@@ -6,7 +6,8 @@ EXTENDS Explorer
 
 CONSTANTS MaxCallsR1, MaxCallsR2,  \* calls per reader
           KindsR1, KindsR2,        \* which calls each reader makes: subsets of {"lookup", "current", "push"}
-          MaxAppends,              \* calls of the updater
+          MaxAppends,              \* calls per updater
+          NUpdaters,               \* 1 or 2 updaters (two: concurrent appenders with overlapping batches)
           VaaNames                 \* which VAA classes are pushed
 
 VARIABLE cnt
@@ -32,12 +33,12 @@ AllVaas == {
 Vaas == {v \in AllVaas : v.id \in VaaNames}
 
 Readers == {"r1", "r2"}
-Updater == "a1"
+Updaters == IF NUpdaters = 2 THEN {"a1", "a2"} ELSE {"a1"}
 
 MCInit ==
     /\ chain = Chain /\ top = 0 /\ list = <<S0>> /\ cur = 0 /\ lock = Nil /\ qcap = 1 /\ queue = <<>>
     /\ marked = {} /\ enq = {} /\ proc = <<>>
-    /\ cnt = [r1 |-> 0, r2 |-> 0, a1 |-> 0]
+    /\ cnt = [r1 |-> 0, r2 |-> 0, a1 |-> 0, a2 |-> 0]
 
 MaxCalls(r) == IF r = "r1" THEN MaxCallsR1 ELSE MaxCallsR2
 Kinds(r)    == IF r = "r1" THEN KindsR1 ELSE KindsR2
@@ -50,7 +51,9 @@ Calls ==
           \/ "current" \in Kinds(r) /\ CurrentCall(r)
           \/ "push" \in Kinds(r) /\ \E v \in Vaas : PushCall(r, v)
     \* the periodic updater: reads the index, fetches everything newer from the chain, then appends
-    \/ cnt[Updater] < MaxAppends /\ top > cur /\ Bump(Updater) /\ AppendCall(Updater, cur + 1, top)
+    \* (its batch may overlap what is known by the time it is appended, and what another updater brings)
+    \/ \E u \in Updaters : \E lo \in {1, cur + 1} :
+          cnt[u] < MaxAppends /\ top > cur /\ Bump(u) /\ AppendCall(u, lo, top)
 
 MCNext ==
     \/ Calls
@@ -62,9 +65,9 @@ MCNext ==
 MCSpec == MCInit /\ [][MCNext]_mcvars
 
 TypeOK ==
-    /\ lock \in {Nil} \cup Readers \cup {Updater}
+    /\ lock \in {Nil} \cup Readers \cup Updaters
     /\ cur \in 0..2 /\ top \in 0..2 /\ Len(list) \in 1..3
-    /\ DOMAIN proc \subseteq Readers \cup {Updater}
+    /\ DOMAIN proc \subseteq Readers \cup Updaters
     /\ \A p \in DOMAIN proc : proc[p].res.tag \in {"none", "set", "miss", "err", "panic"}
 
 \* every VAA class is actually decided the way the property says (guards the model against vacuity)
